@@ -1,5 +1,6 @@
 import Dashu.Proofs.NT.GcdExt
 import Dashu.Proofs.NT.BinGcd
+import Dashu.Proofs.NT.Lehmer
 import Dashu.Proofs.NT.Root
 import Dashu.Proofs.NT.Log
 import Dashu.Proofs.NT.Log2Table
@@ -40,6 +41,17 @@ theorem gcd_ext_prim_spec (a b : Nat) :
   obtain ⟨⟨g, s, t⟩, hr, hx⟩ := h1 h
   exact ⟨g, s, t, hr, hx.1, hx.2.1.symm⟩
 
+/-- the two-width variant used for `u128` (the double word): Euclid in full width while the remainder
+    needs more than `H` bits, then the half-width loop, cofactors recombined -/
+theorem gcd_ext_prim_wide_spec (H a b : Nat) :
+    (a = 0 ∧ b = 0 → xgcdPrimWide H a b = .error .gcdZeroZero) ∧
+    (¬ (a = 0 ∧ b = 0) → ∃ g s t, xgcdPrimWide H a b = .ok (g, s, t) ∧ g = Nat.gcd a b ∧
+        (a : Int) * s + (b : Int) * t = g) := by
+  obtain ⟨h0, h1⟩ := xgcdPrimWide_spec H a b
+  refine ⟨h0, fun h => ?_⟩
+  obtain ⟨⟨g, s, t⟩, hr, hx⟩ := h1 h
+  exact ⟨g, s, t, hr, hx.1, hx.2.1.symm⟩
+
 /-- `gcd_ext` for signed operands of every size class: `s·a + t·b = g = gcd(|a|, |b|)`, for **any**
     multi-word kernel that meets the contract of `gcd_ext_in_place` — including the recovery
     `|b| = q·|t| + |s|` of `gcd_ext_word/_dword` and the post-processing `a = (g − rhs·b)/lhs` as an
@@ -70,6 +82,17 @@ theorem lehmer_step_preserves_gcd (lim fuel xbar ybar : Nat) (x y : Int) :
       = Int.gcd x y := by
   intro r
   exact lehmerStep_gcd x y _ _ _ _ (lehmerGuess_det lim fuel xbar ybar 1 0 0 1 (by norm_num))
+
+/-- the whole mirrored loop of `lehmer::gcd_in_place` (leading-word alignment, `lehmer_guess(_dword)`,
+    Euclidean fallback when the guess fails, `lehmer_step`, final word / double-word gcd) is **sound**:
+    every value it returns is the gcd, whatever cofactors the guess commits.  (That it always returns —
+    no step goes negative, fuel suffices — is the progress half; the driver checks it on every call.) -/
+theorem lehmer_gcd_sound (W lhs rhs g : Nat) (h : lehmerGcd W lhs rhs = .ok g) : g = Nat.gcd lhs rhs :=
+  lehmerGcd_sound W lhs rhs g h
+
+/-- non-vacuity: the mirrored loop returns on a pair of 5-word operands with a common factor -/
+example : lehmerGcd 64 ((2 ^ 64 + 1) * (2 ^ 250 + 12345)) ((2 ^ 64 + 1) * (2 ^ 200 + 7)) = .ok (2 ^ 64 + 1) := by
+  decide +kernel
 
 -- ==================================================================== roots
 
